@@ -74,7 +74,7 @@ def run(repo, res):
     from . import sampleorder
 
     res.rule("R11.4", "sample nodes are identified by ts.samples() / the NODE_IS_SAMPLE bit, never by position in the node table: num_samples is used as a count only (no slice bound, no id range, no ordering comparison with a node id)")
-    sampleorder.run(repo, res, "R11.4")
+    sampleorder.run(repo, res, "R11.4", floor=3, scope=["core", "discrete", "prior", "node_time_class"])
     from . import rowspace
 
     res.rule("R11.3", "results do not depend on node numbering: grid rows (stored in nonfixed_nodes order, i.e. sorted by input time) are assigned to node ids only through that same array, never through a mask or arange, which would enumerate nodes by ascending id")
@@ -136,7 +136,7 @@ def run(repo, res):
     res.floor("node_id_comparisons", n_cmp, 5)
 
 
-VARIANTS = [dict(v, rule="R11.4") for v in __import__("sa.rules.sampleorder", fromlist=["VARIANTS"]).VARIANTS] + [dict(v, rule="R11.3") for v in __import__("sa.rules.rowspace", fromlist=["VARIANTS"]).VARIANTS] + [
+VARIANTS = [dict(v, rule="R11.4") for v in __import__("sa.rules.sampleorder", fromlist=["VARIANTS"]).VARIANTS if v["mod"] in ("core", "prior")] + [dict(v, rule="R11.3") for v in __import__("sa.rules.rowspace", fromlist=["VARIANTS"]).VARIANTS] + [
     dict(name="input-time-as-initial-value", mod="discrete", expect="fire", rule="R11.1", old="        maximized_node_times = np.zeros(self.ts.num_nodes, dtype=\"int\")", new="        maximized_node_times = np.searchsorted(self.lik.timepoints, self.ts.nodes_time).astype(\"int\")"),
     dict(name="input-time-in-likelihood", mod="discrete", expect="fire", rule="R11.1", old="                spanfrac = edge.span / self.spans[edge.child]\n                # Calculate vals for each edge", new="                spanfrac = edge.span / self.spans[edge.child] + 0 * self.ts.nodes_time[edge.child]\n                # Calculate vals for each edge"),
     dict(name="prior-uses-input-times", mod="prior", expect="fire", rule="R11.1", old="    datable_nodes = np.where(datable_nodes)[0]\n\n    # convert timepoints", new="    datable_nodes = np.where(datable_nodes)[0]\n    scale_param = scale_param * (1 + ts.nodes_time.max())\n\n    # convert timepoints"),
